@@ -13,6 +13,7 @@ RULE = (
     "list/int/float containers, appended infinite-death points; medium diagrams of 5..45 (thorough ..120) points, all ordered pairs against an independently built assignment problem. state = one (S,T) pair; transition "
     "= one execution of persim.wasserstein; non-trivial = an optimal matching mixes diagonal and "
     "cross pairings, or several optimal matchings exist."
+    " No warning about non-finite deaths on all-finite input; a diagram against perturbed copies to 1e-11 of the value."
 )
 ASSUMPTIONS = ["oracle: brute force over all partial matchings with Euclidean / perpendicular costs"]
 BOUNDS = {
